@@ -865,9 +865,18 @@ fn consume_op(sim: &mut Sim, con: &mut Con, kk: usize, rng: &mut Rng, hostile: b
             sim.expect_stream("consume", &s, true);
             sim.last_slice.drain(..kk);
         } else {
-            // the caller skipped bytes it was never shown (contract violation of BufRead::consume
-            // that the driver happened to accept): the stream oracles no longer apply
-            sim.honest = false;
+            // the caller skipped bytes it was never shown; the driver accepted, so they count as
+            // handed over — they must at least exist (O1: never more than the device has written)
+            sim.last_slice.clear();
+            if sim.honest {
+                let pos = sim.dev.borrow().pos;
+                if (kk as u64) > pos - sim.returned.min(pos) {
+                    sim.case.fail(format!("consume({}) accepted although only {} delivered bytes were unreturned (the stream position moves past the data)", kk, pos - sim.returned.min(pos)));
+                    sim.honest = false;
+                } else {
+                    sim.returned += kk as u64;
+                }
+            }
         }
     } else if sim.honest && kk <= sim.last_slice.len() {
         sim.case.fail(format!("consume({}) panicked although fill_buf showed {} bytes", kk, sim.last_slice.len()));
